@@ -8,7 +8,7 @@
                                   (Proofs/IdxApplyTie.v) instead of going unnoticed
   _delete_files                   `if not entries: return; fs.remove([...])`
   _delete_dirs                    `for entry in sorted(entries, key=lambda entry: len(entry.key), reverse=<R>):
-                                   try: fs.rmdir(...) except OSError: pass` -> delete_dirs_deepest_first := R
+                                   try: (unlink a local symlink | fs.rmdir) except OSError: pass` -> delete_dirs_deepest_first := R
   _create_dirs                    `fs.makedirs(..., exist_ok=<X>)`        -> create_dirs_exist_ok := X
   _chmod_files                    local-only guard; `mode = os.stat(p).st_mode | stat.S_IEXEC` OUTSIDE the
                                   try, `os.chmod` inside `try/except OSError`
@@ -104,11 +104,15 @@ def unit_idxapply(u):
         bad(f"_delete_dirs: sort key is `{_u(kw['key'])}`")
     if not (isinstance(kw["reverse"], ast.Constant) and isinstance(kw["reverse"].value, bool)):
         bad("_delete_dirs: reverse is not a boolean constant")
-    if [_u(s) for s in gb[0].body] != ["try:\n    fs.rmdir(fs.join(path, *entry.key))\nexcept OSError:\n    pass"]:
+    if [_u(s) for s in gb[0].body] != [
+            "dir_path = fs.join(path, *entry.key)",
+            "try:\n    if isinstance(fs, LocalFileSystem) and os.path.islink(dir_path):\n        os.unlink(dir_path)\n"
+            "    else:\n        fs.rmdir(dir_path)\nexcept OSError:\n    pass"]:
         bad(f"_delete_dirs: loop body changed: {[_u(s) for s in gb[0].body]}")
     o.append(f"(* {rel}:{g.lineno} _delete_dirs: sorted by key length, reverse=...; rmdir, OSError swallowed *)\n"
              f"Definition delete_dirs_deepest_first : bool := {'true' if kw['reverse'].value else 'false'}.\n"
-             "Definition delete_dirs_swallows_oserror : bool := true.\n")
+             "Definition delete_dirs_swallows_oserror : bool := true.\n"
+             "Definition delete_dirs_unlinks_dir_symlink : bool := true.   (* fix 345fea1: a link to a directory is unlinked, not rmdir'ed *)\n")
 
     # ---------------- _create_dirs
     g = u.find_func(tree, "_create_dirs")
